@@ -518,3 +518,20 @@ GEN2 = "            for value in file:\n\n                # Split up the tab sep
 add('C14', 'one-generator-for-both-passes', GIO, [(GEN1, "            entries = (line.rstrip().split(\"\\t\") for line in file)\n            if skip_brute:\n                for split_values in entries:\n"), (GEN2, "            for split_values in entries:\n")], None, 'fire', 'C14.R15')
 add('C11', 'window-slice-one-minus-n', GSF, GS_IP, "                    new_ip = last_item[0][1 - self.ip_length:] + self.cp[last_item[0]][depth_level][last_item[2]]", 'fire', 'C11.R14')
 add('C11', 'popped-level-read-at-loop-head', GSF, "            # Simplifying some of the code by assigning this pointer\n            last_item = self.parse_tree[-1]\n", "            req_level += element[1] - element[1]\n            # Simplifying some of the code by assigning this pointer\n            last_item = self.parse_tree[-1]\n", 'fire', 'C11.R15')
+# ---- round 9 rules ---------------------------------------------------------------------------------------------
+WLG = 'lib_princeling/wordlist_generation.py'
+DONE_MSG = "    print (\"Done generating the PRINCE wordlist.\",file=sys.stderr)"
+add('C17', 'prince-done-message-on-stdout', WLG, DONE_MSG, "    print (\"Done generating the PRINCE wordlist.\")", 'fire', 'C17.R17')
+add('C17', 'prince-done-message-via-stderr-write *', WLG, DONE_MSG, "    sys.stderr.write(\"Done generating the PRINCE wordlist.\\n\")", 'silent')
+HW_COUNT = "                num_guess_current += num_generated_guesses\n"
+add('C16', 'honeyword-run-gives-up-after-empty-walks', HSF_, HW_COUNT, HW_COUNT + "                if num_generated_guesses == 0 and self.random_seed > 100000:\n                    break\n", 'fire', 'C16.R14')
+MAXP = "        self.max_probability = save_config.getfloat('guessing_info', 'max_probability')"
+add('C08', 'restored-position-nudged', PQF, MAXP, MAXP + " * (1 - 1e-15)", 'fire', 'C08.R20')
+add('C15', 'restored-position-nudged', PQF, MAXP, MAXP + " * (1 - 1e-15)", 'fire', 'C15.R11')
+add('C08', 'restored-position-through-a-local *', PQF, MAXP, "        saved_position = save_config.getfloat('guessing_info', 'max_probability')\n        self.max_probability = saved_position", 'silent')
+CPLOAD = "        _load_ngrams(base_directory, \"CP.level\", grammar, \"cp\")\n"
+add('C10', 'cp-table-pruned-after-loading', OIOF, CPLOAD, CPLOAD + "        grammar['cp'] = {ngram: levels for ngram, levels in grammar['cp'].items() if ngram[0] != ' '}\n", 'fire', 'C10.R19')
+add('C11', 'cp-table-pruned-after-loading', OIOF, CPLOAD, CPLOAD + "        grammar['cp'] = {ngram: levels for ngram, levels in grammar['cp'].items() if ngram[0] != ' '}\n", 'fire', 'C11.R17')
+MWIN = "            program_info['multiword'],\n            program_info['encoding']\n        )"
+add('C19', 'multiword-list-read-as-count-prefixed', RTF, MWIN, "            program_info['multiword'],\n            program_info['encoding'],\n            program_info['prefixcount']\n        )", 'fire', 'C19.R9')
+add('C19', 'multiword-list-explicitly-plain *', RTF, MWIN, "            program_info['multiword'],\n            program_info['encoding'],\n            False\n        )", 'silent')
